@@ -49,14 +49,10 @@ template <class D> std::string runCase(Toks& t) {
 }
 
 int main() {
-	std::string line;
-	while (std::getline(std::cin, line)) {
-		guarded([&]() {
-			Toks t(line); t.expect("c17"); std::string dom = t.word();
-			if (dom == "u") return runCase<DomU>(t);
-			if (dom == "s") return runCase<DomS>(t);
-			throw std::runtime_error("driver: unknown domain " + dom);
-		});
-	}
-	return 0;
+	return runIsolated([](const std::string& line) -> std::string {
+		Toks t(line); t.expect("c17"); std::string dom = t.word();
+		if (dom == "u") return runCase<DomU>(t);
+		if (dom == "s") return runCase<DomS>(t);
+		throw std::runtime_error("driver: unknown domain " + dom);
+	});
 }
